@@ -120,6 +120,7 @@ type Exec struct {
 	Viol       []Violation
 	Steps      []*StepRecord
 	step       int
+	nameForms  map[string]map[string]string // F7: "obj|ref path.Name" -> spelling -> first file (per run)
 	clockTicks int
 	reusedRun  bool // the run being checked ran on a kept executor (see doRun)
 	// twoPass: a run with an unrecorded first pass happened (see violate)
